@@ -130,7 +130,7 @@ def main():
             if os.path.exists(dst):
                 try: old = json.load(open(dst))
                 except ValueError: pass
-            for k in ("note", "confirmed_by_me", "first_blind_run", "files", "rebased"):
+            for k in ("note", "confirmed_by_me", "first_blind_run", "files", "rebased", "existing_tests_with_change"):
                 if k in old and k not in m: m[k] = old[k]
             json.dump(m, open(dst, "w"), indent=1, ensure_ascii=False)
             print(m["id"], "|", m["result"], "|", m.get("check", {}).get("signatures", [])[:3], "|",
